@@ -105,6 +105,52 @@ def trace_to_moves(log, n_instr):
     return moves
 
 
+def attribute_residuals(moves, uops_of, inc):
+    """The balancer's "add the residual to the former port" step moves what is left of the *instruction's* cell, which
+    may stem from other micro-ops of the instruction than the one being balanced.  The model's theorem holds for any
+    interleaving of guarded moves over the micro-ops, so such a move is re-attributed to the micro-ops that actually
+    hold the amount (largest holder first); ordinary INC moves stay with the micro-op being balanced."""
+    out = {}
+    inc = float(inc)
+    for li, ms in moves.items():
+        us = uops_of(li)
+        if us is None or not ms:
+            out[li] = ms
+            continue
+        rows = []
+        for c, m, idx in us:
+            row = {}
+            for p in idx:
+                row[p] = row.get(p, 0.0) + float(c) * float(m) / len(idx)
+            rows.append(row)
+        res = []
+        for (j, a, b, d) in ms:
+            if j is None or j >= len(rows):
+                res.append((j, a, b, d))
+                continue
+            if d >= inc - 1e-9 or d <= 0:
+                res.append((j, a, b, d))
+                rows[j][a] = rows[j].get(a, 0.0) - d
+                rows[j][b] = rows[j].get(b, 0.0) + d
+                continue
+            remaining = d
+            cands = sorted([jj for jj in range(len(rows)) if a in rows[jj] and b in rows[jj]], key=lambda jj: -rows[jj][a])
+            for jj in cands:
+                if remaining <= 1e-15:
+                    break
+                t = min(remaining, max(0.0, rows[jj][a] + inc / 2))
+                if t <= 0:
+                    continue
+                res.append((jj, a, b, t))
+                rows[jj][a] -= t
+                rows[jj][b] += t
+                remaining -= t
+            if remaining > 1e-12:
+                res.append((j, a, b, remaining))   # nobody holds it: let the guard decide
+        out[li] = res
+    return out
+
+
 def check_state(ctx, state, kernel, uops_of, n, eps, info, uniform_ref=None):
     """Oracle: every instruction's vector is Feasible(eps) for its micro-ops. Returns #failures."""
     reqs, idx = [], []
@@ -195,6 +241,7 @@ def run_kernel(ctx, mm, sem, parser, kernel, ports, uops_of, info, inc, trace=Tr
             ctx.correspondence_break("balancer-trace", dict(info, detail=str(e)))
             moves = None
         if moves is not None:
+            moves = attribute_residuals(moves, uops_of, inc)
             reqs, idx = [], []
             for li, ms in moves.items():
                 us = uops_of(li)
